@@ -563,8 +563,8 @@ def helpers():
 
     # ------------------------------------------------------------------ instance enumeration
     def combos(tier, dtypes=None, batches=None, sizes=None):
-        """(dtype, batch, n) combinations.  quick: every (batch, size) pair in float64, a covering half in float32;
-        thorough: the full product with more batch shapes and sizes."""
+        """(dtype, batch, n) combinations: every (batch, size) pair in float64, a checkerboard half in float32 (quick: even,
+        thorough: odd); thorough adds batch shapes (1,2), (3,1,2) and sizes 3, 9 (and a second seed for sizes <= 2, see family())."""
         quick = tier == "quick"
         full = dtypes is not None or batches is not None or sizes is not None
         batches = batches or (zoo.BATCHES_QUICK if quick else zoo.BATCHES_QUICK + [(1, 2), (3, 1, 2)])
@@ -572,8 +572,8 @@ def helpers():
         dtypes = dtypes or zoo.DTYPES
         out = []
         for dt, (ib, batch), (i_n, n) in itertools.product(dtypes, enumerate(batches), enumerate(sizes)):
-            if quick and not full and dt == torch.float32 and (ib + i_n) % 2:
-                continue
+            if not full and dt == torch.float32 and (ib + i_n) % 2 == (1 if quick else 0):
+                continue  # float32: quick takes the even checkerboard half, thorough the odd one (complementary)
             out.append((dt, batch, n))
         return out
 
